@@ -90,6 +90,17 @@ ClassesOK == stage = 2 =>
     \* distance classes from a node: nearer-than is a strict weak order
     /\ \A c \in { m.nodes[1], m.nodes[Len(m.nodes)] } : \A u, v \in P : NearCmp(c, u, v) = -NearCmp(c, v, u)
 
+\* the shrink map keeps what the judge relies on for fine meshes (points in the open hemisphere of the centre)
+ShrinkLaws == stage = 2 =>
+    \A M \in { 2, 3 } :
+      /\ \A pole \in { << 0, 0, 1 >>, << 0, 0, -1 >> } :
+           LET H == { p \in P : Dot(p, pole) > 0 } IN
+           /\ \A a, b \in H : LatCmp(Shrink(pole, M, a), Shrink(pole, M, b)) = LatCmp(a, b)
+           /\ \A a \in H : ~IsPole(a) => SameLon(Shrink(pole, M, a), a)
+      /\ \A c \in { m.nodes[1], << 1, 0, 0 >>, << 0, 0, 1 >> } :
+           LET H == { p \in P : Dot(p, c) > 0 } IN
+           \A a, b \in H : NearCmp(c, Shrink(c, M, a), Shrink(c, M, b)) = NearCmp(c, a, b)
+
 (* ---- emission ------------------------------------------------------------------------ *)
 SideAsPair(s) == LET a == MinOf(s) IN << a, MaxOf(s) >>
 Emit == stage = 1 =>
